@@ -11,7 +11,21 @@ ASSUME = ["gates sit at the vpoint hooks (build tag verif); a step of the model 
           "Stop on a source that is still Starting panics by design below the RPC layer; the RPC layer never lets it happen (checked in the model with RPCLayer = TRUE/FALSE)"]
 
 
+def abaco_chain(ctx, q):
+    """Design level: the Abaco chain reader -> buffersChan -> getNextBlock goroutine -> core loop (AbacoLifecycle.tla).
+    'as the tree is' must hold; the variants document what the localhost-UDP driver observes on the real code."""
+    for cfg in ("AbacoLifeTree.cfg", "AbacoLifeMC.cfg") + (() if q else ("AbacoLifeTreeBig.cfg",)):
+        r = vlib.run_tlc(ctx, "AbacoLifecycle", cfg, workers=4, timeout=900)
+        if not r.ok:
+            raise vlib.MachineryError("AbacoLifecycle %s: %s" % (cfg, r.violated))
+    r = vlib.run_tlc(ctx, "AbacoLifecycle", "AbacoLifeAsCode.cfg", workers=2, timeout=600)
+    ctx.notes["abaco_chain_panic_timer_races_orderly_timeout"] = {"violated": r.violated, "meaning": "as the code is, a silent hardware can end the run by the reader's orderly time-out or by getNextBlock's deliberate panic (equal 5 s timers): design observation, see DESIGN.md"}
+    r = vlib.run_tlc(ctx, "AbacoLifecycle", "AbacoLifeSeed.cfg", workers=2, timeout=600)
+    ctx.notes["abaco_chain_variant_close_in_abort_arm_only"] = {"violated": r.violated, "meaning": "closing the devices only in the reader's abort arm leaves them open after a run that ended by the time-out (seeded change C10-s4; the UDP driver reproduces it on the code)"}
+
+
 def collect(ctx, q):
+    abaco_chain(ctx, q)
     scens = []
     for cfg in (["LifecycleMC.cfg", "LifecycleErr.cfg"] if q else ["LifecycleMC.cfg", "LifecycleErr.cfg", "LifecycleBig.cfg"]):
         r = vlib.run_tlc(ctx, "Lifecycle", cfg, workers=16, timeout=3000, heap="24g")
